@@ -29,6 +29,8 @@ type srvCfg struct {
 	maxStreams    int
 	maxHeaderList int
 	maxBody       int
+	reqTimeoutMs  int // fasthttp.Server.ReadTimeout = the server's request timeout (0: none)
+	idleMs        int // fasthttp.Server.IdleTimeout = the server's idle timeout (0: none)
 }
 
 type frameSpec struct {
@@ -74,6 +76,9 @@ type event struct {
 type scenario struct {
 	cfg srvCfg
 	evs []event
+	// void: the run depended on real time (the request timer) and the machine was too slow for the
+	// scenario to mean what it says; it is dropped, not compared
+	void bool
 }
 
 const kindLetters = "DHPRSUGAWC"
@@ -192,6 +197,10 @@ func (e *event) String() string {
 		return fmt.Sprintf("D %d %d %s %s %s", e.sid, r.status, fmtFields(r.fields), body, obs)
 	case 'E':
 		return "E"
+	case 'T':
+		return "T"
+	case 'I':
+		return "I"
 	case 'g':
 		return "GS"
 	case 'u':
@@ -208,7 +217,14 @@ func (e *event) String() string {
 }
 
 func (sc *scenario) String() string {
-	parts := []string{fmt.Sprintf("srv ms=%d,hl=%d,mb=%d", sc.cfg.maxStreams, sc.cfg.maxHeaderList, sc.cfg.maxBody)}
+	head := fmt.Sprintf("srv ms=%d,hl=%d,mb=%d", sc.cfg.maxStreams, sc.cfg.maxHeaderList, sc.cfg.maxBody)
+	if sc.cfg.reqTimeoutMs > 0 {
+		head += fmt.Sprintf(",rt=%d", sc.cfg.reqTimeoutMs)
+	}
+	if sc.cfg.idleMs > 0 {
+		head += fmt.Sprintf(",it=%d", sc.cfg.idleMs)
+	}
+	parts := []string{head}
 	for i := range sc.evs {
 		parts = append(parts, sc.evs[i].String())
 	}
@@ -229,6 +245,10 @@ func parseScenario(line string) *scenario {
 			sc.cfg.maxHeaderList = v
 		case "mb":
 			sc.cfg.maxBody = v
+		case "rt":
+			sc.cfg.reqTimeoutMs = v
+		case "it":
+			sc.cfg.idleMs = v
 		}
 	}
 	for _, p := range parts[1:] {
@@ -460,7 +480,8 @@ func runServerScenario(sc *scenario) string {
 			ctx.Response.SetBody(r.body)
 		}
 	}
-	fs := &fasthttp.Server{Handler: handler, MaxRequestBodySize: sc.cfg.maxBody, NoDefaultServerHeader: true, NoDefaultDate: true, NoDefaultContentType: true, Logger: runLogger{run}}
+	fs := &fasthttp.Server{Handler: handler, MaxRequestBodySize: sc.cfg.maxBody, NoDefaultServerHeader: true, NoDefaultDate: true, NoDefaultContentType: true, Logger: runLogger{run},
+		ReadTimeout: time.Duration(sc.cfg.reqTimeoutMs) * time.Millisecond, IdleTimeout: time.Duration(sc.cfg.idleMs) * time.Millisecond}
 	srv := http2.ConfigureServer(fs, http2.ServerConfig{PingInterval: -1, MaxConcurrentStreams: sc.cfg.maxStreams, MaxHeaderListSize: sc.cfg.maxHeaderList})
 
 	pc := fasthttputil.NewPipeConns()
@@ -495,9 +516,9 @@ func runServerScenario(sc *scenario) string {
 	}
 
 	dec := hpack.NewDecoder(4096, nil)
-	sent := int64(0)     // frames the read loop has to consume
+	sent := int64(0) // frames the read loop has to consume
 	handlerDone := int64(0)
-	seen := handshake    // frames of peer.frames already reported
+	seen := handshake // frames of peer.frames already reported
 	returned := false
 	var groups []string
 
@@ -610,6 +631,7 @@ func runServerScenario(sc *scenario) string {
 
 	connClosed := false
 	closedWhileGated := false
+	started := time.Now()
 	for i := range sc.evs {
 		e := &sc.evs[i]
 		if connClosed {
@@ -705,6 +727,27 @@ func runServerScenario(sc *scenario) string {
 			if openGate != nil {
 				openGate()
 				openGate = nil
+			}
+		case 'T':
+			// the request timer: every stream open now is older than the timeout once we have waited it out.
+			// Real time: the scenario is void if the timer has fired before this point (a slow machine),
+			// or if the events so far took more than half of the timeout.
+			tk := http2.VerifClientTicks()
+			if tk[http2.VerifTickSrvReqTimer] != 0 || time.Since(started) > time.Duration(sc.cfg.reqTimeoutMs)*time.Millisecond/2 {
+				sc.void = true
+			}
+			time.Sleep(time.Duration(sc.cfg.reqTimeoutMs)*time.Millisecond + 30*time.Millisecond)
+			waitTicksStable()
+		case 'I':
+			// the idle timer: no request for IdleTimeout. Real time again: void if it has fired already or
+			// the events so far took more than half of the timeout.
+			tk := http2.VerifClientTicks()
+			if tk[http2.VerifTickSrvIdle] != 0 || time.Since(started) > time.Duration(sc.cfg.idleMs)*time.Millisecond/2 {
+				sc.void = true
+			}
+			dl := time.Now().Add(time.Duration(sc.cfg.idleMs)*time.Millisecond + 2*time.Second)
+			for time.Now().Before(dl) && http2.VerifClientTicks()[http2.VerifTickSrvIdle] == 0 {
+				time.Sleep(time.Millisecond)
 			}
 		case 'E':
 			_ = c2.Close()
